@@ -1,8 +1,8 @@
 #!/verif/.venv/bin/python
 # Replay of a solver counterexample against the unmodified code (no shims).
-# property=C13 kernel=history label=state:is_in_eom_mode
+# property=C13 kernel=history label=typestate:ADD_l
 import sys
 sys.path[:0] = ['/repo' + "/pulser-core", '/repo' + "/pulser-simulation", "/verif"]
 from symx.replay import replay
-sys.exit(replay(check='checks.c13', kernel='history', shape={'device': 'virt_reuse', 'k': 1, 'first': 0, 'prefix': ['D_g', 'D_g2', 'EOM_on', 'VAR_EOM', 'EOM_on2']},
-                assignment={}, label='state:is_in_eom_mode'))
+sys.exit(replay(check='checks.c13', kernel='history', shape={'device': 'virt', 'k': 1, 'first': 8, 'prefix': ['D_g', 'D_l_init'], 'reg': 'regint'},
+                assignment={}, label='typestate:ADD_l'))
